@@ -176,6 +176,10 @@ class C04(Prop):
             if k >= len(old) or not kv["pre"].startswith("ok:"):
                 continue
             same = old[k][2] == kv["pre"]
+            if same and "value" in (old[k][3], kv.get("form", "")) and old[k][3] != kv.get("form", ""):
+                # one call handed a Go VALUE, the other the text: that they format identically is C14's first sentence (and rests on
+                # what "standard JSON encoding" means for `<`, `>`, `&`), not something this property says - not judged here
+                continue
             if same and (o["outcome"] != "passed" or o["writes"] != "-" or o.get("touched", "-") != "-"):
                 fails.append({"msg": "obs %d: unchanged value under update mode: outcome=%s writes=%s" % (idx, o["outcome"], o["writes"])})
             if not same and o["outcome"] != "updated":
